@@ -519,7 +519,13 @@ func allInjections() []injection {
 				return false
 			}
 			b := &jwt.Import{Name: "dup", Account: g.acctKey(), Type: jwt.Service}
-			switch g.rng.Intn(6) {
+			switch g.rng.Intn(8) {
+			case 6: // references beyond the ninth wildcard
+				a.Subject, a.LocalSubject = "ovl.*.*.*.*.*.*.*.*.*.*", "svc.$1.$2.$3.$4.$5.$6.$7.$8.$9.$10"
+				b.Subject, b.LocalSubject = "oth.*.*.*.*.*.*.*.*.*", "svc.$1.$2.$3.$4.$5.$6.$7.$8.$9.status"
+			case 7:
+				a.Subject, a.LocalSubject = "ovl.*.*.*.*.*.*.*.*.*.*.*.*", "$12.x.$11.$10.$9.$8.$7.$6.$5.$4.$3.$2.$1"
+				b.Subject = "z.x.c.d.e.f.g.h.i.j.k.l.m"
 			case 0:
 				b.Subject = a.Subject
 			case 1:
